@@ -3,7 +3,11 @@
 
   tools/confirm_seeded.py C07 [a b ...]
 
-For every variant x found in /tmp/seed/<ID>-out (patch_x.diff + demo_x/run.sh):
+Environment: SEED_ROOT (default /tmp/seed) is where the sub-agents worked;
+SEED_RENAME (e.g. "a=c,b=d") stores a round's variants under other letters so that
+earlier rounds are kept.
+
+For every variant x found in $SEED_ROOT/<ID>-out (patch_x.diff + demo_x/run.sh):
  1. demo on the clean scratch worktree /tmp/seed/<ID> must exit 0,
  2. with the patch applied: go build + the repository's own suite must stay green,
  3. the demo must now exit non-zero,
@@ -24,9 +28,12 @@ def sh(cmd, cwd=None, timeout=1800):
 
 def main():
     pid = sys.argv[1]
-    wt = "/tmp/seed/%s" % pid
-    out = "/tmp/seed/%s-out" % pid
+    root = os.environ.get("SEED_ROOT", "/tmp/seed")
+    rename = dict(kv.split("=") for kv in os.environ.get("SEED_RENAME", "").split(",") if "=" in kv)
+    wt = "%s/%s" % (root, pid)
+    out = "%s/%s-out" % (root, pid)
     variants = sys.argv[2:] or sorted({f[len("patch_"):-len(".diff")] for f in os.listdir(out) if f.startswith("patch_") and f.endswith(".diff")})
+    sh("git checkout -q --detach %s" % sh("git -C /repo rev-parse HEAD")[1].strip(), cwd=wt)
     ok_all = True
     for x in variants:
         patch = os.path.join(out, "patch_%s.diff" % x)
@@ -65,8 +72,9 @@ def main():
             continue
         dst = os.path.join(VERIF, "seeded", pid)
         os.makedirs(dst, exist_ok=True)
-        shutil.copy(patch, os.path.join(dst, "patch_%s.diff" % x))
-        ddst = os.path.join(dst, "demo_%s" % x)
+        y = rename.get(x, x)
+        shutil.copy(patch, os.path.join(dst, "patch_%s.diff" % y))
+        ddst = os.path.join(dst, "demo_%s" % y)
         shutil.rmtree(ddst, ignore_errors=True)
         shutil.copytree(os.path.dirname(demo), ddst)
         meta = {}
@@ -75,11 +83,12 @@ def main():
         except Exception as e:
             meta = {"property": pid, "summary": "(meta file unreadable: %s)" % e}
         meta["property"] = pid
-        meta["variant"] = x
+        meta["variant"] = y
+        meta["round"] = int(os.environ.get("SEED_ROUND", "1"))
         meta["confirmed"] = dict(
             what_i_ran="in a scratch worktree of /repo (outside /repo and /verif): demo on clean HEAD; git apply patch; go build ./... && go test ./... (root and tests modules, unedited); demo again; git checkout",
             demo_on_clean_head_exit=rc0, suite_with_patch_exit=rcb, demo_with_patch_exit=rc1)
-        json.dump(meta, open(os.path.join(dst, "meta_%s.json" % x), "w"), indent=1)
+        json.dump(meta, open(os.path.join(dst, "meta_%s.json" % y), "w"), indent=1)
     return 0 if ok_all else 1
 
 
